@@ -519,6 +519,10 @@ func (e *specEnv) eval(ex ast.Expr) (sval, error) {
 				}
 			}
 		}
+		if x.p.Ctr.GhostFields[typeStr(pt.Elem())+"."+n.Sel.Name] {
+			so := x.intSort()
+			return sval{v: scalar(Select(e.heapOf("F:"+typeStr(pt.Elem())+"."+n.Sel.Name, SArray(SInt, so)), v.v.T, so)), typ: types.Typ[types.Int]}, nil
+		}
 		return sval{}, fmt.Errorf("no field %s in %s", n.Sel.Name, pt.Elem())
 	case *ast.SliceExpr:
 		a, err := e.eval(n.X)
@@ -567,6 +571,10 @@ func (e *specEnv) eval(ex ast.Expr) (sval, error) {
 			mk_ := "M:" + typeStr(a.typ)
 			key := i.v.T
 			return sval{v: scalar(Select(Select(e.heapOf(mk_+":val", SArray(SInt, SArray(ks, vs))), a.v.T, SArray(ks, vs)), key, vs)), typ: mt.Elem()}, nil
+		}
+		if a.v.K == vScalar && a.v.T.Sort == SStr {
+			// s[i]: the byte at offset i
+			return sval{v: scalar(mk(x.byteSort(), "str.at_", a.v.T, e.coerceInt(i))), typ: types.Typ[types.Byte]}, nil
 		}
 		return sval{}, fmt.Errorf("index of non-slice")
 	case *ast.CallExpr:
@@ -1229,6 +1237,61 @@ func (e *specEnv) evalCall(n *ast.CallExpr) (sval, error) {
 			return sval{}, fmt.Errorf("no single-method interface with method %s is asserted anywhere", mn)
 		}
 		return sval{v: scalar(x.implementsT(v.v.T, it)), typ: boolT}, nil
+	case "rangeidx": // rangeidx(K): byte offset of the next rune of the range-over-string loop K
+		lit, ok := n.Args[0].(*ast.BasicLit)
+		if !ok || e.frame == nil {
+			return sval{}, fmt.Errorf("rangeidx(loop)")
+		}
+		ord, _ := strconv.Atoi(lit.Value)
+		li := x.loopsOf(e.frame.fn)
+		for hb, o := range li.ord {
+			if o != ord {
+				continue
+			}
+			for _, in := range hb.Instrs {
+				if nx, ok := in.(*ssa.Next); ok && nx.IsString {
+					if rg, ok := nx.Iter.(*ssa.Range); ok {
+						return sval{v: scalar(e.heapOf(x.rangeKey(rg), x.intSort())), typ: types.Typ[types.Int]}, nil
+					}
+				}
+			}
+		}
+		return sval{}, fmt.Errorf("rangeidx(%d): loop %d is not a range over a string", ord, ord)
+	case "chr": // chr(c): string(rune(c)) for a byte or rune c
+		v, err := arg(0)
+		if err != nil {
+			return sval{}, err
+		}
+		c := v.v.T
+		if v.lit != nil {
+			c = e.coerceInt(v)
+		}
+		switch {
+		case c.Sort == SBV32:
+			return sval{v: scalar(mk(SStr, "runestr", c)), typ: types.Typ[types.String]}, nil
+		case c.Sort == SBV8:
+			return sval{v: scalar(mk(SStr, "runestr", mk(SBV32, "(_ zero_extend 24)", c))), typ: types.Typ[types.String]}, nil
+		case c.Sort == SInt && x.mode == "int":
+			x.needTheory = true
+			return sval{v: scalar(mk(SStr, "chrstr_", c)), typ: types.Typ[types.String]}, nil
+		}
+		return sval{}, fmt.Errorf("chr() of a %s value", c.Sort)
+	case "replApply": // replApply(pairs, s): strings.NewReplacer(pairs...).Replace(s)
+		sl, err := arg(0)
+		if err != nil {
+			return sval{}, err
+		}
+		sv, err := arg(1)
+		if err != nil {
+			return sval{}, err
+		}
+		if sl.v.K != vSlice || sv.v.T.Sort != SStr {
+			return sval{}, fmt.Errorf("replApply(slice of strings, string)")
+		}
+		is := x.intSort()
+		inner := Select(e.heapOf("S:string", SArray(SInt, SArray(is, SStr))), sl.v.Arr, SArray(is, SStr))
+		x.needTheory = true
+		return sval{v: scalar(mk(SStr, "repl_apply", inner, sl.v.Off, sl.v.Len, sv.v.T)), typ: types.Typ[types.String]}, nil
 	case "captured": // captured(v): the variable a closure captured, even when a local shadows its name
 		id, ok := n.Args[0].(*ast.Ident)
 		if !ok || e.frame == nil {
